@@ -36,6 +36,14 @@ WORKS = collections.OrderedDict([
     ("incvar", ("{% set lf = ['leaf'] %}{% include lf %}", [KI])),
     ("incmissing", ("{% include ['nope.html', 'nope2.html'] ignore missing %}", None)),
     ("from", ("{% from 'leaflib' import lm %}", [KP, KI])),
+    # host callables that render a block / call a macro through &mut State and SWALLOW the error: when the admission is
+    # refused the render goes on; a refused admission charges nothing and refunds nothing, an admitted one is undone on
+    # return - either way the depth afterwards is the depth before: no accounting operation at all
+    ("tryblk", ("{{ try_block('leaf') }}", None)),
+    ("tryblkwith", ("{{ try_block('leaf2') }}", None)),
+    ("trymac", ("{{ try_macro('h2') }}", None)),
+    ("try2", ("{{ try_block('leaf2') }}{{ try_macro('h2') }}", None)),
+    ("try3", ("{{ try_block('leaf') }}{{ try_macro('h') }}{{ try_block('leaf2') }}", None)),
     ("blk", ("{{ self.leaf() }}", [KB])),
     ("blkwith", ("{{ self.leaf2() }}", [KB, KP])),
     ("callh", ("{% call w() %}c{% endcall %}", [KM, KM])),
@@ -110,6 +118,7 @@ SPELL = {
         ("test_arg", ("{{ 1 is eq(@N@()) }}", [])),
         ("subscript", ("{{ {'a': 1}[@N@()] }}", [])),
         ("with_value", ("{% with q = @N@() %}{% endwith %}", [[1, KP]])),
+        ("host_try", ("{{ try_macro('@N@') }}", [])),          # State::call_macro from a host function that swallows the error
     ]),
     "call": collections.OrderedDict([
         ("call", ("{% call @N@() %}.{% endcall %}", [])),
@@ -122,6 +131,7 @@ SPELL = {
         ("self_filter", ("{{ self.@B@()|upper }}", [])),
         ("self_condition", ("{% if self.@B@() %}{% endif %}", [])),
         ("self_in_list", ("{{ [self.@B@()]|join }}", [])),
+        ("host_try", ("{{ try_block('@B@') }}", [])),         # State::render_block from a host function that swallows the error
         ("inline", (None, [])),     # the {% block %} tag itself, where the calling level stands (when it may stand there)
     ]),
 }
@@ -187,7 +197,8 @@ def work_items(works):
 
 
 LEAVES = {"leaf": "z", "leaflib": "{% macro lm() %}x{% endmacro %}"}
-BLOCK_WORKS = ("blk", "blkwith")
+BLOCK_WORKS = ("blk", "blkwith", "tryblk", "tryblkwith", "try2", "try3")
+TRY_WORKS = ("tryblk", "tryblkwith", "trymac", "try2", "try3")
 
 
 def rotate_to_template_entry(nodes):
@@ -455,6 +466,14 @@ def gen_shapes(chk):
                 if chk.thorough:
                     for sp2 in SPELL[e2]:
                         shapes.append(cycle_shape([plain(e2, sp2), plain(e, sp)], root_spell=rnd_spell(rng, e2)))
+    # the "optional block" pattern: a block that renders 1..3 optional blocks / macros through a swallowing host callable
+    # on every level and then nests itself through the same callable (or a macro doing the same)
+    for tw in (["tryblk"], ["tryblkwith", "tryblk"], ["try3"], ["tryblkwith", "trymac", "tryblk"], ["try2", "try3"]):
+        shapes.append(dict(cycle_shape([{"entry": "blk", "works": tw, "wraps": [], "spell": "host_try"}], root_spell="inline"), pure=3))
+        shapes.append(dict(cycle_shape([{"entry": "mac", "works": tw, "wraps": [], "spell": "host_try"}], root_spell="host_try"), pure=3))
+        shapes.append(cycle_shape([{"entry": "blk", "works": tw, "wraps": [], "spell": "host_try"}, {"entry": "mac", "works": tw[:1], "wraps": [], "spell": "host_try"}]))
+        shapes.append(cycle_shape([{"entry": "blk", "works": tw, "wraps": [], "spell": "self"}], root_spell="host_try"))
+        shapes.append(cycle_shape([{"entry": "blk", "works": tw, "wraps": ["with"], "spell": "host_try"}], supers=2, root_spell="host_try"))
     # a {% block %} tag standing inside the level that calls it (inline), after every kind of level that may contain one
     for e in ("inc", "imp", "blk"):
         for e3 in ENTRIES:
@@ -801,6 +820,15 @@ def main():
             if r.get("effective_limit") != eff:
                 report("clamp", "the recursion limit in force in the rendering environment (Environment::recursion_limit()) is not the configured one, min(level, 500)", j, cfg, r,
                        {"limit_in_force": r.get("effective_limit"), "configured": eff})
+            if r.get("swallowed_other"):
+                counts["other error swallowed"] += 1
+                report("swallowother", "a host callable swallowed an error other than 'recursion limit exceeded' (shape or engine)", j, cfg, r, nfi=True)
+                continue
+            if ob[0] == 0 and r.get("swallowed", 0) >= 1:
+                # the refusal was reported to a host callable that swallowed it: the render goes on and ends normally;
+                # the level at which the recursion was refused is compared as always
+                counts["refusal swallowed by a host callable"] += 1
+                ob = [1, 3, ob[1], "reclimit"]
             if ob[0] == 0 or ob[1] != 3 or ob[3] != "reclimit":
                 counts["no recursion error"] += 1
                 report("noerr", "an unbounded recursion did not end with the 'recursion limit exceeded' error", j, cfg, r)
@@ -817,6 +845,8 @@ def main():
                     report("level", "levels_reached: the engine refuses the recursion at another level than the model", j, cfg, r, nfi=True)
             else:
                 counts["agree"] += 1
+                if r.get("swallowed"):
+                    counts["renders with swallowed refusals that agree"] += 1
     mvs = [j for j in range(len(cases)) if model[j] != spec[j]]
     if mvs:
         j = mvs[0]
